@@ -2,7 +2,11 @@
 
 package dns_naming
 
-import "github.com/irai/packet"
+import (
+	"time"
+
+	"github.com/irai/packet"
+)
 
 // VerifNew returns a DNSHandler that does not bind any multicast socket.
 // Compiled only with -tags verif.
@@ -50,4 +54,15 @@ func (h *DNSHandler) VerifMDNSCache() []VerifCacheEntry {
 		out = append(out, e)
 	}
 	return out
+}
+
+// VerifAgeMDNSCache makes every mDNS cache entry d older (its expiry moves d into the past): the
+// harness' virtual clock for the 5 minute cache, which reads time.Now() internally.
+func (h *DNSHandler) VerifAgeMDNSCache(d time.Duration) {
+	h.mutex.Lock()
+	defer h.mutex.Unlock()
+	for k, c := range h.mdnsCache {
+		c.expiry = c.expiry.Add(-d)
+		h.mdnsCache[k] = c
+	}
 }
